@@ -259,7 +259,7 @@ func runShard(st *shardState, id, tier, build string, seed uint64, shard, stride
 		os.Remove(outf)
 		ef, _ := os.Create(errf)
 		cmd := exec.Command(binPath(build), "-check", id, "-tier", tier, "-build", build, "-seed", fmt.Sprint(seed),
-			"-shard", fmt.Sprint(shard), "-stride", fmt.Sprint(stride), "-from", fmt.Sprint(from), "-n", fmt.Sprint(n), "-out", outf)
+			"-shard", fmt.Sprint(shard), "-stride", fmt.Sprint(stride), "-from", fmt.Sprint(from), "-n", fmt.Sprint(n), "-max", "15000", "-out", outf)
 		cmd.Env = append(os.Environ(), buildEnv[build]...)
 		if build == "race" {
 			cmd.Env = append(cmd.Env, "GORACE=halt_on_error=0 log_path="+outf+".race")
@@ -296,6 +296,7 @@ func runShard(st *shardState, id, tier, build string, seed uint64, shard, stride
 		lastB := line{I: -1}
 		lastE := -1
 		sawExitV := false
+		nextFrom := -1
 		if f, err := os.Open(outf); err == nil {
 			sc := bufio.NewScanner(f)
 			sc.Buffer(make([]byte, 1<<20), 64<<20)
@@ -309,6 +310,8 @@ func runShard(st *shardState, id, tier, build string, seed uint64, shard, stride
 					lastB = l
 				case "E":
 					lastE = l.I
+				case "N":
+					nextFrom = l.I
 				}
 				if l.T == "V" && (l.Oracle == "cpu" || l.Oracle == "memory") {
 					sawExitV = true
@@ -329,6 +332,10 @@ func runShard(st *shardState, id, tier, build string, seed uint64, shard, stride
 		if werr == nil && !timedOut {
 			os.Remove(outf)
 			os.Remove(errf)
+			if nextFrom >= 0 {
+				from = nextFrom // bounded process lifetime: continue the shard in a fresh worker
+				continue
+			}
 			return
 		}
 		if timedOut {
